@@ -111,6 +111,12 @@ def gen(run):
     if len(ex) > cap:
         ex = run.rng.sample(ex, cap)
     hs += [("glob3_1", x) for x in ex]
+    if not thorough:
+        # two updates in a row (a file joins through a literal include, the literal line goes, a pattern still matches it):
+        # sampled by simulation in the quick tier, enumerated in the thorough one
+        r = run.tlc("MCWorkspace", cfg(3, 2, absent=True), mode="simulate", simulate=2500, depth=3, workers=1, timeout=2400,
+                    extra_modules={"MCWorkspace": mc_module(3, [[], [4], [3, 4], [2], [2, 4]], TXS_SMALL[:2], [[]])})
+        hs += [("glob3_2", x) for x in r.json]
     if thorough:
         # declarations and a fourth transaction list: sampled from the pool of 4 x 4 x 2 = 32 contents per file
         # (32^3 x 96 = 3.1 million histories) by simulation, one update each
